@@ -190,7 +190,12 @@ void verif_case(Ctx &c) {
 	// parser's syntactically relevant characters so that the search reaches the parser's states.
 	static const char *alpha[4] = {"%%%$*.-+ #0'123456789lhzjtdiuoxXcspn", "{{{}}}::0123456789bcdioxX", "\"\"   ==a1fobzquxpth", "0123456789999a-+ "};
 	size_t alen = strlen(alpha[parser]);
-	while(!t.done()) { uint32_t e = t.next(); in.push_back(e < 256 || (e & 0x300) == 0 ? (char)(e & 0xff) : alpha[parser][(e >> 10) % alen]); }
+	static const char *tokens[] = {"2147483647", "2147483648", "2147483649", "4294967295", "4294967296", "9223372036854775807", "9223372036854775808", "18446744073709551615", "18446744073709551616", "32767", "32768", "255", "256", "127", "128"};
+	while(!t.done()) {
+		uint32_t e = t.next();
+		if(e >= 256 && (e & 0x3f00) == 0x3f00) { in += tokens[(e >> 16) % 15]; continue; }      // occasionally a whole boundary number
+		in.push_back(e < 256 || (e & 0x300) == 0 ? (char)(e & 0xff) : alpha[parser][(e >> 10) % alen]);
+	}
 	if(in.size() > 4096) in.resize(4096);
 	panicked = false;
 	switch(parser) {
@@ -262,4 +267,19 @@ void verif_enum(Enum &e) {
 		if(!e.run(t5)) return; count++;
 	}
 	e.scope("digit runs of 17 lengths between 1 and 40 as to_number input, printf width/precision, fmt width, cmdline number", count);
+	// the neighbours of every type limit, in every numeric position
+	count = 0;
+	static const char *limits[] = {"127", "128", "129", "255", "256", "32767", "32768", "32769", "65535", "65536", "2147483647", "2147483648", "2147483649", "4294967295", "4294967296", "4294967297",
+		"9223372036854775807", "9223372036854775808", "9223372036854775809", "18446744073709551615", "18446744073709551616", "18446744073709551617", "02147483648", "00000000002147483649"};
+	for(const char *lim : limits) {
+		std::vector<uint32_t> digits; for(const char *p = lim; *p; p++) digits.push_back((unsigned char)*p);
+		auto with = [&](std::vector<uint32_t> pre, std::vector<uint32_t> post) { std::vector<uint32_t> tp = pre; tp.insert(tp.end(), digits.begin(), digits.end()); tp.insert(tp.end(), post.begin(), post.end()); bool ok = e.run(tp); count++; return ok; };
+		for(uint32_t ty = 0; ty < 6; ty++) if(!with({3 + 4 * ty}, {})) return;
+		if(!with({0, '%'}, {'d'})) return;
+		if(!with({0, '%', '.'}, {'s'})) return;
+		if(!with({0, '%', '-'}, {'c'})) return;
+		for(uint32_t v = 0; v < 3; v++) { if(!with({1 + 4 * v, '{', ':'}, {'}'})) return; if(!with({1 + 4 * v, '{', ':', '0'}, {'x', '}'})) return; if(!with({1 + 4 * v, '{'}, {'}'})) return; if(!with({1 + 4 * v, '{', '0', ':'}, {'X', '}'})) return; }
+		if(!with({2, '1', '='}, {})) return; if(!with({2, 'a', 'a', '='}, {' ', 'a'})) return; if(!with({2, 'a', '1', '='}, {})) return; if(!with({2 + 12, 'n', '='}, {})) return;
+	}
+	e.scope("neighbours of every integer type limit (incl. leading zeros) in every numeric position of the four parsers", count);
 }
